@@ -217,7 +217,7 @@ func TestC13Patterns(t *testing.T) {
 							pattern[i] = uk
 						}
 					}
-					variant := idx % 12 // error handler {option, setter, unset, option+re-entrant alert} x handlers {0, 1, 3}
+					variant := idx % 15 // error handler {option, option replaced by setter, unset, option+re-entrant alert, option cleared by setter(nil)} x handlers {0, 1, 3}
 					runPattern(run, pattern, variant)
 				}
 			}
@@ -228,8 +228,8 @@ func TestC13Patterns(t *testing.T) {
 }
 
 func runPattern(run *vk.Run, pattern []int, variant int) {
-	ehMode := variant % 4 // 3: an error handler that publishes an alert event on the same bus
-	nH := variant / 4
+	ehMode := variant % 5 // 3: an error handler that publishes an alert event on the same bus; 4: cleared with SetPersistenceErrorHandler(nil)
+	nH := variant / 5
 	if nH == 2 {
 		nH = 3
 	}
@@ -272,10 +272,14 @@ func runPattern(run *vk.Run, pattern []int, variant int) {
 	if ehMode == 1 {
 		w.bus.SetPersistenceErrorHandler(w.onErr)
 	}
+	if ehMode == 4 {
+		w.bus.SetPersistenceErrorHandler(func(any, reflect.Type, error) { staleCalls++ })
+		w.bus.SetPersistenceErrorHandler(nil) // detached again: failures are then simply not reported
+	}
 	subscribeAll(w, nH)
 	ebu.Subscribe(w.bus, func(alert) { alerts++ })
 	sig := fmt.Sprintf("%v|eh%d|h%d", pattern, ehMode, nH)
-	witness := map[string]any{"pattern": pattern, "error_handler": []string{"option", "setter", "unset", "option, publishes an alert"}[ehMode], "handlers": nH}
+	witness := map[string]any{"pattern": pattern, "error_handler": []string{"option", "option replaced by setter", "unset", "option, publishes an alert", "set, then cleared with SetPersistenceErrorHandler(nil)"}[ehMode], "handlers": nH}
 	viol := func(rule, desc string) {
 		witness["store_ops"] = w.faults.Snapshot()
 		run.Violation("persist:"+rule, fmt.Sprintf("pattern %v (0 ok, 1 append rejected, >=2 unencodable), error handler %s, %d handlers: %s", pattern, witness["error_handler"], nH, desc), witness)
@@ -329,7 +333,7 @@ func runPattern(run *vk.Run, pattern []int, variant int) {
 		}
 		newErr := w.errCalls[errBefore:]
 		wantErr := 0
-		if k != 0 && k != 9 && ehMode != 2 {
+		if k != 0 && k != 9 && ehMode != 2 && ehMode != 4 {
 			wantErr = 1
 		}
 		if len(newErr) != wantErr {
